@@ -344,6 +344,40 @@ Proof.
   intros i a Hi Ha. destruct i as [|[|i]]; [reflexivity | reflexivity | lia].
 Qed.
 
+(* error_calc on DATA with its own branch selection (Model/Errors.v:error_calc_model, run against the code by Corr/C06.v:KErrCalcFull): whichever
+   branch it takes - mask given, no MTTKRP handed over, sparsity, or the MTTKRP shortcut - it returns the explicit squared residual (of the
+   imputed tensor, minus the sparse component) and the squared norm it is relative to, as soon as the matrix handed over IS the MTTKRP of
+   the last mode for the current weights / factors; every order >= 1, shape, rank *)
+Theorem C06_error_calc_every_branch : forall (F : Type) (Op : fops F),
+  ring_theory (f0 Op) (f1 Op) (fadd Op) (fmul Op) (fsub Op) (fopp Op) (@eq F) ->
+  forall (X : tensor F) (R : nat) (w : option (list F)) (fs : list (tensor F)) (card : option nat) (mask M : option (tensor F)),
+  0 < length (shape X) -> length fs = length (shape X) ->
+  (forall Mt, M = Some Mt -> forall i r,
+     get (f0 Op) Mt [i; r] = mttkrp Op (shape X) (tfun Op X) (wfun Op w) (colsT Op fs) (length (shape X) - 1) i r) ->
+  error_calc_model Op X R w fs card mask M
+  = err_explicit Op X (cp_tensor_entry Op R w fs) (sparse_of Op X (cp_tensor_entry Op R w fs) card mask) mask.
+Proof. exact @error_calc_every_branch. Qed.
+Print Assumptions C06_error_calc_every_branch.
+(* the executed shortcut with the model's own MTTKRP equals the executed residual from scratch, for all data (what KCPfast re-checks per instance) *)
+Theorem C06_shortcut_on_data : forall (F : Type) (Op : fops F),
+  ring_theory (f0 Op) (f1 Op) (fadd Op) (fmul Op) (fsub Op) (fopp Op) (@eq F) ->
+  forall (X : tensor F) (R : nat) (w : option (list F)) (fs : list (tensor F)) (n : nat),
+  n < length (shape X) -> length fs = length (shape X) ->
+  err_shortcut Op X R w fs n = err_cp_true Op X R w fs None None.
+Proof. exact @err_shortcut_is_true. Qed.
+Print Assumptions C06_shortcut_on_data.
+(* non-vacuity: the 2x3x2 instance of C06_shortcut_nonvacuous with its true MTTKRP of the last mode handed over: shortcut branch, value 296;
+   with a mask the explicit branch is taken *)
+Example C06_error_calc_every_branch_nonvacuous :
+  let X := mk [2;3;2] [1;2;3;4;5;6;7;8;9;10;11;12]%Z in
+  let fs := [mk [2;2] [1;0;1;1]%Z; mk [3;2] [1;2;0;1;1;1]%Z; mk [2;2] [1;1;2;0]%Z] in
+  let w := Some [2;3]%Z in
+  let Mt := tabulate [2;2] (fun ir => mttkrp Zops [2;3;2] (tfun Zops X) (wfun Zops w) (colsT Zops fs) 2 (nth 0 ir 0) (nth 1 ir 0)) in
+  fst (error_calc_model Zops X 2 w fs None None (Some Mt)) = 296%Z /\
+  fst (error_calc_model Zops X 2 w fs None None None) = 296%Z /\
+  fst (error_calc_model Zops X 2 w fs (Some 2) (Some (mk [2;3;2] [1;1;1;1;1;1;1;1;1;1;1;0]%Z)) (Some Mt)) = 60%Z.
+Proof. vm_compute. repeat split. Qed.
+
 (* EVERY entry of the returned list, not only the last: entry j of the list a run of n iterations returns is the error of the iterate
    RETURNED by the same run cut after j+1 iterations (same oracle, same start), i.e. of the iterate of its iteration.  For the loops
    with one recorded value per iteration (either record / callback ordering, every stop pattern, normalisation after recording) ... *)
